@@ -214,6 +214,11 @@ func c20body(hist []string, plan []string, res *result, prov **genProvider) func
 					col.Shutdown()
 					vs.Point()
 					cancel()
+					// "Shutdown requests are idempotent and safe from any state": also after the run has ended (a panic or a
+					// blocked call here is an engine verdict)
+					vs.AwaitQuiescence(func() bool { return res.returned })
+					col.Shutdown()
+					col.Shutdown()
 				}
 			}
 		})
